@@ -541,6 +541,23 @@ impl Property for C10 {
             };
             let mine = classes(&o.stderr);
             let (code, class) = mine.iter().next().cloned().unwrap_or_default();
+            // C01's known class "a packed type that is not Copy derives nothing, its container still
+            // derives": the type rustc names is a *visible* packed type of the program. Hiding
+            // something can bring it out (the container stops being excluded for another reason)
+            // without being its cause.
+            let c01_packed_class = |code: &str, class: &str| -> bool {
+                let named: Option<String> = o.stderr.lines().find(|l| l.starts_with("error")).and_then(|l| {
+                    let mut parts = l.split('`');
+                    parts.nth(1).map(|t| t.trim_start_matches('[').split(|c: char| !(c.is_alphanumeric() || c == '_')).next().unwrap_or("").to_string())
+                });
+                let visible_packed = named.as_ref().map_or(false, |n| {
+                    prog.decls.iter().enumerate().any(|(k, d)| match d {
+                        Decl::Comp(c) => d.rust_name().as_deref() == Some(n.as_str()) && (c.packed || c.pragma_pack.is_some()) && !blocked_types.contains(&k) && !opaque.contains_key(&k),
+                        _ => false,
+                    })
+                });
+                visible_packed && crate::engine::known_sigs("C01").iter().any(|s| s.contains(&format!("/{code}/")) && s.ends_with(class))
+            };
             // metamorphic baseline: the same program with nothing hidden. An error the plain
             // bindings have too is C01's subject, not the effect of hiding something.
             let plain_header = prog.render();
@@ -560,10 +577,20 @@ impl Property for C10 {
                             return out;
                         }
                         let (code, class) = new_ones[0].clone();
+                        if c01_packed_class(&code, &class) {
+                            out.excluded_known += 1;
+                            out.class("derive-through-visible-packed-member (C01 known class)");
+                            return out;
+                        }
                         out.fail(format!("rustc-rejects/{code}/{class}"), ctx(&o.stderr.chars().take(1800).collect::<String>()));
                         return out;
                     }
                 }
+            }
+            if c01_packed_class(&code, &class) {
+                out.excluded_known += 1;
+                out.class("derive-through-visible-packed-member (C01 known class)");
+                return out;
             }
             out.fail(format!("rustc-rejects/{code}/{class}"), ctx(&o.stderr.chars().take(1800).collect::<String>()));
             return out;
